@@ -25,4 +25,8 @@ grep -E "^VIOLATION|^KNOWN|^$P " /var/tmp/seedrun-$1.log | head -8
 echo "check exit=$C"
 if [ -f /var/tmp/evidence-$P.json.keep ]; then mv /var/tmp/evidence-$P.json.keep evidence/$P.json; fi
 # restore Gen from the real tree
-PYTHONPATH=/repo/src:py /venv/bin/python -m dv.py2coq >/dev/null 2>&1
+PYTHONPATH=/repo/src:py /venv/bin/python - >/dev/null 2>&1 <<PYEOF
+from dv import core
+with core.Lock():
+    core.regenerate_gen()
+PYEOF
